@@ -222,7 +222,8 @@ PROPS = {
     "C13": {"streams": [S("recase", "canon", [], 2500, 80000)]},
     "C14": {"streams": [S("parse", "all", ["C14", "C14x"], 4000, 150000, direct="C14_roundtrip / C14_no_operands / C14_empty_operand")]},
     "C15": {"streams": [S("isa", "all", ["C15"], 3000, 100000, direct="C15_isa_ok / C15_isa_first_defect / C15_compile_ok / C15_compile_fail"),
-                        S("abilities", "all", ["C15"], 1000, 30000, direct="C15_abilities")]},
+                        S("abilities", "all", ["C15"], 1000, 30000, direct="C15_abilities"),
+                        S("hwload", "all", [], 1000, 30000)]},
     "C16": {"streams": [S("pipeline", "table", ["C16", "TC01", "TC02", "TC03", "TC04", "TC05", "TC06", "TC07", "TC08"],
                           160, 1500)]},
     "C17": {"streams": [S("bag", "all", [], 0, 0, explicit=bag_scope, exhaustive=True, direct="C17_eq_iff / C17_len / C17_repr"),
